@@ -343,7 +343,7 @@ def main():
         tot, levels, samples, st, len(items),
         "program = topology; per program: (n_perm seeded permutations + reversed + bulk + path-wise + renamed + symbolic turn-rate scaling) variants x "
         "(NumPy joint exploration, SX, MX); one query per variant, engine and next-state component: variant term == base term",
-        {"bounds": {"family": "K (18 curated)" + (" + every 2nd of E(3,4) + R(seed,20)" if args.thorough else ""), "permutations_per_topology": n_perm,
+        {"bounds": {"family": "K (20 curated)" + (" + every 2nd of E(3,4) + R(seed,20)" if args.thorough else ""), "permutations_per_topology": n_perm,
                     "scale_factors": "one symbolic c_n > 0 per node", "values": "all reals (L1) / admissible domain (fallback)"},
          "functions_encoded": ["Network.add_node(s)/add_link(s)/add_origin/add_destination/add_path", "Network.step / views iteration order", "Node.get_upstream_speed_and_flow (sums, turn rates)",
                                "Engine.to_function enumeration order"]})
